@@ -749,14 +749,15 @@ for inp, stubs, bind in cases:
     for mname, src in stubs.items():
         object.__setattr__(obj, mname, (lambda a: (lambda *x, **y: a.copy()))(inp[src]))
     kwargs = {}
-    for pn in list(inspect.signature(F).parameters)[1:]:
+    is_static = isinstance(inspect.getattr_static(C, meth), staticmethod)
+    for pn in list(inspect.signature(F).parameters)[(0 if is_static else 1):]:
         if pn in inp:
             kwargs[pn] = copy.deepcopy(inp[pn])
         elif pn in bind:
             kwargs[pn] = bind[pn]
     try:
         with np.errstate(all="ignore"):
-            r = F(obj, **kwargs)
+            r = F(**kwargs) if is_static else F(obj, **kwargs)
         res.append({"ok": True, "result": r, "after": {k: getattr(obj, k[5:]) for k in inp if k.startswith("self.")}})
     except BaseException as e:
         res.append({"ok": False, "error": f"{type(e).__name__}: {e}"})
